@@ -83,6 +83,12 @@ NamedPayloadProg(i) ==
     [id |-> "PN" \o ToString(i), family |-> "data",
      methods |-> << [RM(1, <<"h1">>, on, IF i <= 3 THEN "tn" ELSE IF i <= 6 THEN "tm" ELSE IF i <= 9 THEN "te" ELSE IF i <= 12 THEN "td" ELSE "ts", "none") EXCEPT !.name = "on_ok"] >>]
 
+(* reply methods (and so handler names) called like names the generated code uses: `reply` (the entry point), `dispatch_reply`, `new` *)
+ReservedNameProg(i) ==
+    LET n == IF i = 1 THEN "reply" ELSE IF i = 2 THEN "dispatch_reply" ELSE "payload" IN
+    [id |-> "NR" \o ToString(i), family |-> "data",
+     methods |-> << [RM(1, <<>>, "success", "t2", "none") EXCEPT !.name = n] >>]
+
 (* one payload parameter of type Binary *without* the raw marker: it is encoded and decoded like any other typed parameter *)
 BinPayloadProg(i) ==
     LET on == IF i = 1 THEN "success" ELSE IF i = 2 THEN "error" ELSE "always" IN
@@ -114,7 +120,7 @@ CompiledProgs ==
       \cup {DataProgMerged(i, b) : i \in {1, 3, 5}, b \in BOOLEAN}
       \cup {MixProg(i) : i \in 1..4}
       \cup {NamedPayloadProg(i) : i \in 1..15}
-      \cup {BinPayloadProg(i) : i \in 1..3} \cup {IdProg}
+      \cup {BinPayloadProg(i) : i \in 1..3} \cup {IdProg} \cup {ReservedNameProg(i) : i \in 1..3}
       \cup {LegacyProg(i) : i \in 1..4}))
 
 (* ------------------------------------------------------------ the machine *)
@@ -123,7 +129,7 @@ VARIABLES pi, st, sub, rep, out
 INSTANCE ReplyRT
 
 Init == pi \in 1..Len(Progs) /\ st = "idle" /\ sub = NoSub /\ rep = NoRep /\ out = NoOut
-HandlerUniverse == HNames \cup {"h3", "on_ok", "m1", "m2", "m3"}
+HandlerUniverse == HNames \cup {"h3", "on_ok", "m1", "m2", "m3", "reply", "dispatch_reply", "payload"}
 Next ==
     \/ \E h \in HandlerUniverse, r \in Recvs : BuildSubMsg(h, r)
     \/ \E res \in {"ok", "err"}, c \in DataClasses : Outcome(res, c)
@@ -142,6 +148,8 @@ ASSUME LemmaOrderIndependent
 (* emission *)
 NameChars(n) == CASE n = "h1" -> <<"h","1">> [] n = "h2" -> <<"h","2">> [] n = "h3" -> <<"h","3">> [] n = "m1" -> <<"m","1">> [] n = "m2" -> <<"m","2">>
                   [] n = "m3" -> <<"m","3">> [] n = "on_ok" -> <<"o","n","_","o","k">> [] n = "on_err" -> <<"o","n","_","e","r","r">>
+                  [] n = "reply" -> <<"r","e","p","l","y">> [] n = "payload" -> <<"p","a","y","l","o","a","d">>
+                  [] n = "dispatch_reply" -> <<"d","i","s","p","a","t","c","h","_","r","e","p","l","y">>
 ElabMethodR(m) == m @@ [hids |-> HandlerIds(m)]
 HandlerRow(p, h) ==
     [h |-> h, const |-> Str(ReplyConst(NameChars(h))), on |-> ReplyOn(p, h), payload |-> PayloadSig(p, h), data |-> DataMode(p, h),
